@@ -208,6 +208,8 @@ def classify(step_text, tags):
                     add("C03", f"replica index differs at offset {det}")
             else:
                 add("C01" if t == "VALS" else "C03", f"{'values' if t == 'VALS' else 'index membership'} differ at offset {det}")
+                if t == "VALS":
+                    add("C10", f"a reader was handed a value at offset {det} that no transaction committed")
                 if det in ins:
                     add("C11", f"freshly inserted row {det} exposes foreign data ({t})")
         elif t == "COUNT":
@@ -338,6 +340,12 @@ def run_hist_engine(ctx, spec):
             ctx.violation("panic", f"the implementation panicked: {ptxt}  (profile={spec['profile']} seed={seed} case={case})", data=data)
         else:
             ctx.other.append({"case": int(case), "panic": ptxt, "concerns": ps})
+    # an operation that never returned (the watchdog abandoned the case): no property that needs the
+    # operation's result holds on that history, and it is a termination failure (C18)
+    for case, what in list((s.get("stuck") or {}).items())[:5]:
+        text = vlib.case_text(s["shards"], int(case)) or ""
+        ctx.violation("stuck", f"a call into the library never returned in a sequential history: {what}  (profile={spec['profile']} seed={seed} case={case})",
+                      data={"engine": "hist", "profile": spec["profile"], "seed": seed, "case": int(case), "stuck": what, "history": text})
     if ctx.pid == "C15":
         for v in (s["stats"].get("IdViolations") or [])[:5]:
             ctx.violation("ids", "change stream: " + v, data={"engine": "hist", "profile": spec["profile"], "seed": seed, "case": 0})
@@ -741,8 +749,8 @@ H = lambda profile, q, t, **kw: dict(engine="hist", profile=profile, quick=q, th
 PROPS = {
     "C01": dict(engines=[H("values", 60, 900), H("mix", 30, 400)],
                 rule="random histories over all column kinds executed on the implementation and replayed through Store.v; non-trivial = >=3 committed transactions with offset reuse, a multi-block transaction or a merge; distinct by SHA-1 of the history"),
-    "C02": dict(engines=[H("atomic", 70, 900)],
-                rule="histories with 50% rolled back transactions mixing successful and failing inserts; non-trivial = at least one abort, one commit and an insert"),
+    "C02": dict(engines=[H("atomic", 70, 900), S("rows", 200, 3000, dfs_thorough=4000, locks=False)],
+                rule="histories with 50% rolled back transactions mixing successful and failing inserts; non-trivial = at least one abort, one commit and an insert; plus controlled schedules of committing and aborting writers whose commits carry row markers (a delete of a seeded row, a kept insert) beside a writer that grows the collection by a block"),
     "C03": dict(engines=[H("index", 70, 900)],
                 rule="histories with indexes created/dropped mid-history, replicas and restores; non-trivial = >=3 commits with deletes or merges"),
     "C04": dict(engines=[H("filter", 80, 1000), dict(engine="bitmap", quick=400, thorough=6000)],
@@ -755,8 +763,8 @@ PROPS = {
                 rule="a snapshot thread beside 2-3 committing writers (merges and overwrites, one or two blocks) at every yield point of the commit and snapshot protocols; the restored rows must be a prefix per block of the latch order containing every commit acknowledged before the snapshot began"),
     "C09": dict(engines=[S("rows", 250, 4000, dfs_quick=300, dfs_thorough=8000)],
                 rule="2-3 writers merging (additive and order-sensitive v*3+d) into overlapping rows of 1-2 blocks with readers; final value = fold of the committed deltas in latch order"),
-    "C10": dict(engines=[S("rows", 250, 4000, dfs_quick=300, dfs_thorough=8000)],
-                rule="writers preserving a+b=100 on every row beside point and range readers reading a, yielding, reading b; every recorded schedule is also replayed through the latch protocol model"),
+    "C10": dict(engines=[S("rows", 250, 4000, dfs_quick=300, dfs_thorough=8000), H("values", 30, 300)],
+                rule="writers preserving a+b=100 on every row beside point and range readers reading a, yielding, reading b; every recorded schedule is also replayed through the latch protocol model; plus sequential histories of every column kind (every value a reader is handed is one some transaction committed)"),
     "C07": dict(engines=[H("restore", 60, 800), H("dense", 3, 24, per_shard=1)],
                 rule="histories with snapshot->restore->continue cycles; non-trivial = a restore after >=2 commits"),
     "C11": dict(engines=[H("alloc", 60, 800), dict(engine="alloc", quick=300, thorough=6000), S("ins", 150, 3000, dfs_thorough=4000, locks=False)],
@@ -770,11 +778,12 @@ PROPS = {
                 rule="destination writers failing at a chosen call index or byte budget, once or forever, on empty / single-block / multi-block collections, with a transaction committing during the snapshot; every plan is a distinct case"),
     "C15": dict(engines=[H("mix", 60, 800), H("atomic", 30, 300), S("rows", 150, 3000, dfs_thorough=4000)],
                 rule="histories with a recording logger: emitted commits (decoded per block) compared with the model's stream, ids checked to be distinct, non-zero and increasing per block; non-trivial = >=2 emitted commits with an abort or a multi-block transaction"),
-    "C16": dict(engines=[H("sorted", 60, 800)],
+    "C16": dict(engines=[H("sorted", 120, 1500)],
                 rule="histories with a sorted index; non-trivial = an Ascend in the history"),
     "C17": dict(engines=[dict(engine="ttl", quick=3, thorough=10)],
                 rule="real vacuum goroutine at intervals 1-120 ms; rows without TTL, long, short, extended and reset TTLs, a long deadline inserted before the short ones; every judged observation (outside the margins) is a distinct case"),
-    "C18": dict(engines=[dict(engine="race", quick=2, thorough=15), S("rows,snap,ins", 80, 1500, dfs_thorough=3000)], race=True,
+    "C18": dict(engines=[dict(engine="race", quick=2, thorough=15), S("rows,snap,ins,ddl", 80, 1500, dfs_thorough=3000),
+                         H("sorted", 40, 400), H("mix", 40, 400)], race=True,
                 rule="free-running workloads (updates+reads over two blocks, inserts/deletes with offset reuse, snapshots beside multi-block writers with restores, growth beside readers, index builds beside writers) on 16 cores under the race detector, reports deduplicated by function pair; plus controlled schedules with a watchdog (a thread that never finishes = deadlock)"),
     "C19": dict(engines=[H("mix", 60, 800), S("ddl", 200, 3000, dfs_thorough=4000, locks=False)],
                 rule="histories with triggers created/dropped mid-history; non-trivial = >=2 trigger events; plus controlled schedules of writers beside a thread dropping/creating triggers and dropping an index"),
